@@ -172,8 +172,9 @@ def check(case):
         ok = False
     # rounding of a solve is amplified by cond (and accumulates over the steps); real defects seen are >= 1e-4
     tol_steady = max(1e-8, 1e-11 * cond)
+    coefs = problem.make_coefs(mm, P)
     for k in range(P['steps'] if ok else 0):
-        problem.step_implicit(mm, phi, P, dt)
+        problem.step_implicit(mm, phi, P, dt, coefs=coefs)
         v = np.asarray(phi.value)
         if not np.all(np.isfinite(v)):
             res.discarded = True
